@@ -25,7 +25,7 @@ TLA_CP = "/opt/veriftools/tla/tla2tools.jar:/opt/veriftools/tla/CommunityModules
 NCPU = os.cpu_count() or 4
 
 
-HARNESS_ONLY_KEYS = ("meta", "steps", "seed", "observers", "loop", "left", "N", "pad", "gen_error")
+HARNESS_ONLY_KEYS = ("meta", "steps", "seed", "observers", "loop", "left", "N", "pad", "gen_error", "extra")
 
 
 class MachineryError(Exception):
